@@ -26,8 +26,9 @@ MANIFEST = dict(
           "leave the state unchanged; change_table returns the object with the same Z, A, charge in the target table; "
           "kernel-evaluated sweeps: Z 0..118 once each, symbols and names unique and disjoint, no symbol 'D'/'T'/'', and "
           "every element_base row and every isotope row of the regenerated mass table resolves by every route in both "
-          "tables to the one object with that number.  Refuted at full strength (C08_isotope_zero_refuted): an accepted "
-          "'A-Sym' string does not always return an isotope - isotope('0-H') returns the element.  Tie: exhaustive "
+          "tables to the one object with that number; an accepted string with an isotope part ('A-Sym') returns the isotope "
+          "with that number and '0-Sym' raises ValueError (C08_iso_string_with_number, C08_zero_iso_string_raises; the "
+          "earlier refutation isotope('0-H') -> element was repaired in /repo 0de6618).  Tie: exhaustive "
           "sweep on the library of all 119 elements, 2940 isotopes, 499 element ions, 14207 isotope ions x 2 tables "
           "(is-identity of every route, attributes, pickle, deepcopy, change_table both ways, iteration order, ~77000 "
           "invalid neighbours), plus one systematic operation sequence per element and table and random sequences, each "
@@ -38,8 +39,6 @@ MANIFEST = dict(
     technique=("Coq proof: state-machine invariant by induction over operation lists, kernel-evaluated sweeps over the "
                "regenerated tables; exhaustive enumeration on the implementation + differential run of the machine model"),
     ref="DESIGN.md section 7 C08")
-
-ZERO_SIG = "C08:invalid-accepted:isotope-string-zero"
 
 
 def params(ctx):
@@ -76,11 +75,7 @@ def run(ctx):
         if d["signature"] in seen:
             continue
         seen.add(d["signature"])
-        extra = ""
-        if d["signature"] == ZERO_SIG:
-            extra = (" (model: theorem C08_isotope_zero_refuted; every '0-Sym' and '0-D'/'0-T' behaves so: isotope == 0 is "
-                     "the code's marker for 'no isotope given')")
-        ctx.report(d["signature"], d["what"] + extra,
+        ctx.report(d["signature"], d["what"],
                    dict(input=d, how="PYTHONPATH=/repo python: import periodictable; see 'what' for the expression"))
     fails = []
     if proved:
@@ -105,8 +100,7 @@ def run(ctx):
             at = meta[i][1 + int(m.group(1))] if m and 1 + int(m.group(1)) < len(meta[i]) else "?"
             ctx.note("model/implementation disagree in %s at %s [%s]" % (meta[i][0], dg, at))
         # a disagreement is explained when the direct evaluation found a failing input of the property
-        real = [d for d in direct if d["signature"] != ZERO_SIG]
-        if not real:
+        if not direct:
             i = fails[0]
             m = re.search(r"step (\d+)", diags[0]) if diags else None
             at = meta[i][1 + int(m.group(1))] if m and 1 + int(m.group(1)) < len(meta[i]) else "?"
@@ -115,7 +109,7 @@ def run(ctx):
                        % (len(fails), meta[i][0], diags[0] if diags else "?", at),
                        dict(obligation="correspondence C08 (Model/Core.v vs periodictable.core)",
                             sequences=[meta[i][:40] for i in fails[:3]]), found_input=False)
-    if not proved and not [d for d in direct if d["signature"] != ZERO_SIG]:
+    if not proved and not direct:
         kind, msg = ctx.broken
         ctx.report("C08:" + kind, "%s no longer checks: %s" % (kind, msg), dict(obligation=kind, detail=msg), found_input=False)
 
